@@ -5,7 +5,11 @@ racing local cancellations; the close-related projection of the trace is compare
 Oracle (the property), from a snapshot of the real stream table taken when the sweep starts: every pending request is
 failed, every subscriber whose direction was open gets exactly one error, every handler future / publisher is cancelled,
 nothing else is told to the application; afterwards the table is empty, every awaitable is done, on_close ran exactly
-once, receiver and sender are gone and nothing is sent any more even when the keep-alive period elapses many times."""
+once, receiver and sender are gone and nothing is sent any more even when the keep-alive period elapses many times.
+Byte offsets: a real TransportTCP over an asyncio.StreamReader in both roles, the peer's byte stream cut at every offset
+(every third in the quick tier), ended by EOF or by a read error, with and without a loop turn in between; responders
+use the library's StreamFromGenerator: handler futures cancelled, sources not pulled again, nothing written or queued,
+no task left, on_close exactly once, pending requests failed, the stream subscriber told exactly once."""
 from harness import epcheck as E, endpoint as EP
 
 MODEL_TARGETS = E.MODEL_TARGETS
@@ -125,6 +129,11 @@ def correspond(ctx, corr, model_ok):
         corr.count('streams registered at the loss', len(snap))
         for ent in snap:
             corr.count('pending ' + ent['kind'])
+    for case in tcp_cases(ctx):
+        r = run_tcp_cut(*case)
+        corr.oracle_failures.extend(tcp_oracle(case, r))
+        corr.count('real TransportTCP cut (%s, %s)' % (case[0], case[2]))
+        corr.evaluations += 1
     if model_ok:
         E.trace_corr(corr, runs, KEEP, KEYS, 'C11 close projection vs model/Endpoint.v')
     corr.rule = ('legal random histories of 2..16 actions ended by EOF / transport error / close() / mid-frame cut (also '
@@ -142,10 +151,212 @@ def search(ctx, budget):
         found.extend(crashed)
         for sc in runs:
             found.extend(oracle(sc))
+        for case in tcp_cases(ctx):
+            found.extend(tcp_oracle(case, run_tcp_cut(*case)))
     return found
 
 
 def replay(obj):
     case = obj.get('case') or obj
+    if 'tcp_case' in case:
+        c = tuple(case['tcp_case'])
+        return bool(tcp_oracle(c, run_tcp_cut(*c)))
     runs, crashed = E.run_all([case['scenario']], post=after_close)
     return bool(crashed) or any(oracle(sc) for sc in runs)
+
+
+# ---------------------------------------------------------------------------------------------
+# the real TCP transport, cut at EVERY byte offset, orderly EOF and read error
+
+def _stream_for(role):
+    """a byte stream a peer could send, as length-prefixed frames; returns (frames, bytes)"""
+    from harness import frames as FR
+    if role == 'server':
+        frs = [{'t': 'RequestResponse', 'sid': 1, 'ign': False, 'follows': False, 'md': b'', 'd': b'a'},
+               {'t': 'RequestStream', 'sid': 3, 'ign': False, 'follows': False, 'n': 3, 'md': b'', 'd': b'b'},
+               {'t': 'RequestChannel', 'sid': 5, 'ign': False, 'follows': False, 'complete': False, 'n': 2, 'md': b'', 'd': b'c'},
+               {'t': 'RequestN', 'sid': 3, 'ign': False, 'n': 2},
+               {'t': 'RequestResponse', 'sid': 7, 'ign': False, 'follows': False, 'md': b'm', 'd': b'e' * 20},
+               {'t': 'Cancel', 'sid': 1, 'ign': False}]
+    else:
+        frs = [{'t': 'Payload', 'sid': 1, 'ign': False, 'follows': False, 'complete': True, 'next': True, 'md': b'', 'd': b'r1'},
+               {'t': 'Payload', 'sid': 5, 'ign': False, 'follows': False, 'complete': False, 'next': True, 'md': b'', 'd': b's1'},
+               {'t': 'Error', 'sid': 3, 'ign': False, 'code': 0x201, 'd': b'no'},
+               {'t': 'Payload', 'sid': 5, 'ign': False, 'follows': True, 'complete': False, 'next': True, 'md': b'', 'd': b'x' * 30},
+               {'t': 'Payload', 'sid': 5, 'ign': False, 'follows': False, 'complete': True, 'next': True, 'md': b'', 'd': b'y'}]
+    out = b''
+    for fr in frs:
+        b = FR.build(fr).serialize()
+        out += len(b).to_bytes(3, 'big') + b
+    return frs, out
+
+
+def run_tcp_cut(role, k, mode, settle_between, source='gen'):
+    """real TransportTCP over an asyncio.StreamReader: the first k bytes of the peer's stream arrive, then the link
+    dies (mode 'eof': orderly end; 'reset': the read raises ConnectionResetError)."""
+    import asyncio
+    from harness import sim
+    from rsocket.transports.tcp import TransportTCP
+    from rsocket.rsocket_server import RSocketServer
+    from rsocket.rsocket_client import RSocketClient
+    from rsocket.request_handler import BaseRequestHandler
+    from rsocket.helpers import single_transport_provider
+    from rsocket.payload import Payload
+    from rsocket.streams.stream_from_generator import StreamFromGenerator
+    from datetime import timedelta
+    from harness.props import c06
+    loop = sim.new_loop()
+    sim.patch_clock(loop)
+    frs, stream = _stream_for(role)
+    obs = {'on_close': 0, 'futs': [], 'pulled': 0, 'subs': [], 'writes_at_close': None}
+
+    class W:
+        def __init__(self):
+            self.writes = []
+            self.closed = False
+
+        def write(self, b):
+            self.writes.append(bytes(b))
+
+        async def drain(self):
+            pass
+
+        def close(self):
+            self.closed = True
+
+        async def wait_closed(self):
+            pass
+
+        def is_closing(self):
+            return self.closed
+
+    def items():
+        for i in range(50):
+            obs['pulled'] += 1
+            yield Payload(b'%d' % i), False
+
+    class H(BaseRequestHandler):
+        async def request_response(self, payload):
+            f = loop.create_future()
+            obs['futs'].append(f)
+            return f
+
+        async def request_stream(self, payload):
+            return StreamFromGenerator(items)
+
+        async def request_channel(self, payload):
+            s = c06.Rec()
+            obs['subs'].append(s)
+            return StreamFromGenerator(items), s
+
+        async def on_close(self, rsocket, exception=None):
+            obs['on_close'] += 1
+            obs['writes_at_close'] = len(w.writes)
+            obs['pulled_at_close'] = obs['pulled']
+    w = W()
+    box = {}
+    try:
+        def mk():
+            reader = asyncio.StreamReader()
+            box['r'] = reader
+            t = TransportTCP(reader, w)
+            if role == 'server':
+                box['e'] = RSocketServer(t, handler_factory=H)
+            else:
+                box['e'] = RSocketClient(single_transport_provider(t), handler_factory=H,
+                                         keep_alive_period=timedelta(seconds=1000), max_lifetime_period=timedelta(seconds=5000))
+                asyncio.create_task(box['e'].connect())
+        loop.run(mk)
+        loop.settle()
+        ep = box['e']
+        mine = {}
+        if role == 'client':
+            def reqs():
+                mine['rr1'] = ep.request_response(Payload(b'q1'))
+                mine['rr3'] = ep.request_response(Payload(b'q3'))
+                s = c06.Rec(request_in_on_subscribe=())
+                mine['sub5'] = s
+                ep.request_stream(Payload(b'q5')).subscribe(s)
+            loop.run(reqs)
+            loop.settle()
+        reader = box['r']
+        if k:
+            reader.feed_data(stream[:k])
+        if settle_between:
+            loop.settle()
+        if mode == 'eof':
+            reader.feed_eof()
+        else:
+            reader.set_exception(ConnectionResetError('reset by peer'))
+        unsettled = False
+        try:
+            loop.settle()
+            loop.run_until(loop.time() + 4000.0)
+        except RuntimeError:
+            unsettled = True
+        for _ in range(30):
+            loop.tick()
+        import asyncio as _a
+        # (a client keeps its reconnect listener: it waits for reconnect() and touches nothing until then)
+        alive = [repr(t)[:120] for t in _a.all_tasks(loop) if not t.done() and '_reconnect_listener' not in repr(t)]
+        res = {'on_close': obs['on_close'], 'writes_after_close': (len(w.writes) - obs['writes_at_close'])
+               if obs['writes_at_close'] is not None else None,
+               'pulled_after_close': obs['pulled'] - obs.get('pulled_at_close', obs['pulled']),
+               'handler_futures_open': sum(1 for f in obs['futs'] if not f.done()),
+               'table': sorted(ep._stream_control._streams.keys()), 'tasks_alive': alive, 'unsettled': unsettled,
+               'queued_after_close': ep._send_queue.qsize(), 'escaped': list(loop.exceptions)[:2]}
+        if role == 'client':
+            res['requests_open'] = [n for n in ('rr1', 'rr3') if not mine[n].done()]
+            evs = mine['sub5'].events
+            terms = [e for e in evs if e[0] in ('complete', 'error') or (e[0] == 'next' and e[-1])]
+            res['stream_terminals'] = len(terms)
+        return res
+    finally:
+        loop.finish()
+
+
+def tcp_oracle(case, r):
+    role, k, mode, sb = case
+    out = []
+    base = {'tcp_case': list(case)}
+
+    def bad(what, **kw):
+        d = dict(base, what=what)
+        d.update(kw)
+        out.append(d)
+    if r['on_close'] != 1:
+        bad('tcp:on_close-calls', count=r['on_close'])
+    if r['writes_after_close']:
+        bad('tcp:writes-after-close', count=r['writes_after_close'])
+    if r['pulled_after_close']:
+        bad('tcp:source-pulled-after-close', count=r['pulled_after_close'])
+    if r['handler_futures_open']:
+        bad('tcp:handler-future-not-cancelled', count=r['handler_futures_open'])
+    if r['table']:
+        bad('tcp:streams-left', sids=r['table'])
+    if r['tasks_alive']:
+        bad('tcp:tasks-alive', tasks=r['tasks_alive'][:3])
+    if r['unsettled']:
+        bad('tcp:busy-after-close')
+    if r['queued_after_close']:
+        bad('tcp:frames-queued-after-close', count=r['queued_after_close'])
+    if r['escaped']:
+        bad('tcp:exception-escaped', detail=r['escaped'])
+    if role == 'client':
+        if r['requests_open']:
+            bad('tcp:request-left-hanging', names=r['requests_open'])
+        if r['stream_terminals'] != 1:
+            bad('tcp:stream-subscriber-terminals', count=r['stream_terminals'])
+    return out
+
+
+def tcp_cases(ctx):
+    out = []
+    for role in ('server', 'client'):
+        n = len(_stream_for(role)[1])
+        ks = range(0, n + 1) if ctx.thorough else sorted(set(list(range(0, n + 1, 3)) + [n, n - 1, 1, 2, 3, 4, 9, 10, 11, 12]))
+        for k in ks:
+            for mode in ('eof', 'reset'):
+                for sb in ((True, False) if (ctx.thorough or k % 2 == 0) else (False,)):
+                    out.append((role, k, mode, sb))
+    return out
